@@ -150,6 +150,17 @@ def families(eng, tier, seed):
                 x = reg[i]["id"]
                 return "Err:RegistryTypeIdsInvalid", (lambda pv: z3.And(regdsl._sc(pv[0], "u32").v == x, regdsl._sc(pv[1], "u32").v == i) if not isinstance(pv[0], int) else z3.And(z3.BitVecVal(pv[0], 32) == x, pv[1] == i))
             fams.append(expect_family("idfault-%s-%d" % (n, i), mk, STD, exp, dedup_too=True))
+    # (a') the same fault on an entry whose path is substituted (a substituted type is skipped by the emitter, not by the check)
+    for n in (small[:4] if tier == "quick" else small):
+        r = bases[n]
+        for i in user_ids(r):
+            if len(r[i]["path"]) < 2: continue
+            def mk(eng, r=r, i=i):
+                reg = regdsl._clone(r); x = z3.BitVec("badid", 32); eng.assume(x != i); reg[i]["id"] = x; reg[i]["_fault"] = i; return reg
+            def exp(reg, i=i):
+                x = reg[i]["id"]
+                return "Err:RegistryTypeIdsInvalid", (lambda pv: z3.And(regdsl._sc(pv[0], "u32").v == x, regdsl._sc(pv[1], "u32").v == i) if not isinstance(pv[0], int) else z3.And(z3.BitVecVal(pv[0], 32) == x, pv[1] == i))
+            fams.append(expect_family("idfault-substituted-%s-%d" % (n, i), mk, STD + Settings(["subst %s => ::ext::Subst" % "::".join(r[i]["path"])]), exp, dedup_too=False))
     # (b) mixed named / unnamed
     for n in small:
         r = bases[n]
